@@ -104,13 +104,35 @@ def walker_calls(body):
     return out
 
 
-def tag_switches(body, pred):
-    """switches on discr(X) with pred(strip(X)) true -> list of (bb, {value: target})"""
+def declared_discrs(d):
+    """tag value of variant i as declared in the source (an omitted discriminant continues +1, like rustc's)"""
+    out, nxt = [], 0
+    for v in d["variants"]:
+        if v.get("discr") is not None:
+            nxt = v["discr"]
+        out.append(nxt)
+        nxt += 1
+    return out
+
+
+def tag_switches(body, pred, discrs=None):
+    """switches on discr(X) with pred(strip(X)) true -> list of (bb, {variant index: target}, otherwise).
+    With `discrs` (declared tag values by variant position) the switch values are translated to variant positions; a switch value that is
+    no declared discriminant is kept under the key ("undeclared", value) so that the caller's list comparison fails."""
     out = []
     for sbb, st in body.switches():
         cond = body.expr_of_operand(st["switch"])
         if cond[0] == "discr" and pred(strip(cond[1])):
-            out.append((sbb, {int(v): tb for v, tb in st["targets"]}, st["otherwise"]))
+            m = {}
+            for v, tb in st["targets"]:
+                v = int(v)
+                if discrs is None:
+                    m[v] = tb
+                elif v in discrs:
+                    m[discrs.index(v)] = tb
+                else:
+                    m[("undeclared", v)] = tb
+            out.append((sbb, m, st["otherwise"]))
     return out
 
 
@@ -246,13 +268,14 @@ def validate_rules(F, R, nm, d, m, cs):
         e2 = body.expr_of_call(fb[0][1], 0, fb[0][0])
         ok = ok and canon(e1[3][0]) == "$__flatty_bytes" and canon(e2[3][0]) == "$__flatty_bytes"
     R.ob("V2.tag-validated-first", fn, "tag", ok, "%s: the raw tag at offset 0 is validated before it is read as an enum" % nm, where=b["span"])
-    sw = tag_switches(body, is_tag_of_bytes)
+    sw = tag_switches(body, is_tag_of_bytes, declared_discrs(d))
     if len(sw) != 1:
         R.anchor_lost("F6.validate-list", fn, "expected one match on the tag, found %d" % len(sw))
         return
     sbb, tvm, other = sw[0]
-    okl = True
+    okl = not any(isinstance(k, tuple) for k in tvm)
     found = []
+    arm_regions = {}
     for i, want in enumerate(lists):
         if i not in tvm:
             # last variant may be the otherwise edge
@@ -263,6 +286,7 @@ def validate_rules(F, R, nm, d, m, cs):
             okl = False
             continue
         reg = region(body, sbb, tgt)
+        arm_regions[i] = (tgt, reg)
         w = [x for x in ws if x["bb"] in reg]
         found.append([x["types"] for x in w])
         if not want:
@@ -293,23 +317,38 @@ def validate_rules(F, R, nm, d, m, cs):
         R.ob("V5.validated-range", fn, "enum-payload-range", all(x == want_data for x in datas),
              "%s: the validator walks exactly the payload the view covers: bytes[DATA_OFFSET..DATA_OFFSET + floor_mul(len - DATA_OFFSET, ALIGN=%s)]%s" % (
                  nm, a, "" if all(x == want_data for x in datas) else " -- found %s" % datas), where=b["span"])
-        # per-variant size gate
-        gate_ok = False
-        for sb2, st in body.switches():
-            cond = body.expr_of_operand(st["switch"])
-            if cond[0] == "bin":
+        # per-variant size gate: in the arm of variant i, before its fields are walked, len(payload) < DATA_MIN_SIZES[i] (the POSITION of the
+        # variant, not its tag value) returns InsufficientSize at DATA_OFFSET; the walk is on the false edge
+        gate_ok = bool(arm_regions) and len(arm_regions) == len(lists)
+        gate_why = ""
+        for i, (tgt, reg) in sorted(arm_regions.items()):
+            found_gate = False
+            for sb2, st in body.switches():
+                if sb2 not in reg:
+                    continue
+                cond = body.expr_of_operand(st["switch"])
+                if cond[0] != "bin":
+                    continue
                 n_ = norm_cmp(cond, True)
-                if n_ and n_[0] == "Lt":
-                    l, r_ = canon(n_[1]), canon(n_[2])
-                    if l == "core::slice::<impl [T]>::len(%s)" % want_data and r_.startswith("flatty_corpus::%s::DATA_MIN_SIZES[" % nm):
-                        # true edge returns Err(InsufficientSize, DATA_OFFSET); false edge dominates the match on the tag
-                        ft = [b_ for v, b_ in st["targets"] if int(v) == 0]
-                        if ft and body.edge_dominates((sb2, ft[0]), sbb):
-                            errs = [canon(body.expr_of_rvalue(s["r"])) for bb_ in body.reachable_from(st["otherwise"], avoid=[ft[0]])
-                                    for s in body.stmts(bb_) if s["l"] and s["l"]["v"] == 0 and not s["l"]["p"]]
-                            gate_ok = errs == ["Err{Error{InsufficientSize{}, %d}}" % do]
+                if not (n_ and n_[0] == "Lt"):
+                    continue
+                l, r_ = canon(n_[1]), canon(n_[2])
+                if l == "core::slice::<impl [T]>::len(%s)" % want_data and r_ == "flatty_corpus::%s::DATA_MIN_SIZES[%d]" % (nm, i):
+                    ft = [b_ for v, b_ in st["targets"] if int(v) == 0]
+                    if not ft:
+                        continue
+                    errs = [canon(body.expr_of_rvalue(s_["r"])) for bb_ in body.reachable_from(st["otherwise"], avoid=[ft[0]])
+                            for s_ in body.stmts(bb_) if s_["l"] and s_["l"]["v"] == 0 and not s_["l"]["p"]]
+                    walkers = [x for x in ws if x["bb"] in reg]
+                    dominated = all(body.edge_dominates((sb2, ft[0]), x["bb"]) for x in walkers)
+                    if errs == ["Err{Error{InsufficientSize{}, %d}}" % do] and dominated:
+                        found_gate = True
+            if not found_gate:
+                gate_ok = False
+                gate_why = " -- no such gate in the arm of variant %d (%s)" % (i, d["variants"][i]["name"])
         R.ob("G2.variant-size-gate", fn, "DATA_MIN_SIZES", gate_ok,
-             "%s: before a variant is walked, len(payload) < DATA_MIN_SIZES[tag] is refused with InsufficientSize at DATA_OFFSET" % nm, where=b["span"])
+             "%s: before variant i is walked, len(payload) < DATA_MIN_SIZES[i] (i = position of the variant) is refused with InsufficientSize at DATA_OFFSET%s" % (nm, gate_why),
+             where=b["span"])
     # error offset
     clos = [bj for bj in F.poly(krate="flatty_corpus") if bj["id"].startswith(b["id"] + "::{closure")]
     offs = []
@@ -328,6 +367,40 @@ def clike_tag_rule(F, R, body, b, fn, nm, nvars, d):
     acc = accept_set(body)
     R.ob("V2.tag-accept-set", fn, "raw-tag", acc is not None and discrs is not None and acc == discrs,
          "%s: the validator accepts exactly the raw tag values %s = rustc's discriminants %s" % (nm, acc, discrs), where=b["span"])
+
+
+_INT_BITS = {"u8": 8, "u16": 16, "u32": 32, "u64": 64, "u128": 128, "usize": 64, "i8": 8, "i16": 16, "i32": 32, "i64": 64, "i128": 128, "isize": 64}
+
+
+def const_fold(e):
+    """Evaluate an expression built from integer constants with + - * and integer casts (rustc lowers `Enum::V as int` for enums with
+    explicit discriminants to `(relative + base) as int`). Returns ("const", v, ty) or the expression unchanged."""
+    e0 = e
+    if not isinstance(e, tuple):
+        return e
+    if e[0] in ("copy", "move", "use") and len(e) == 2:
+        return const_fold(e[1])
+    if e[0] == "const":
+        return e
+    if e[0] == "cast" and e[1] == "IntToInt":
+        x = const_fold(e[2])
+        if isinstance(x, tuple) and x[0] == "const" and isinstance(x[1], int):
+            ty = e[3]
+            bits = _INT_BITS.get(ty)
+            if bits is None:
+                return e0
+            v = x[1] & ((1 << bits) - 1)
+            if ty.startswith("i") and v >= (1 << (bits - 1)):
+                v -= (1 << bits)
+            return ("const", v, ty)
+        return e0
+    if e[0] == "bin" and e[1] in ("Add", "Sub", "Mul", "AddUnchecked", "SubUnchecked", "MulUnchecked"):
+        a, b_ = const_fold(e[2]), const_fold(e[3])
+        if isinstance(a, tuple) and isinstance(b_, tuple) and a[0] == "const" and b_[0] == "const" and isinstance(a[1], int) and isinstance(b_[1], int):
+            v = {"A": a[1] + b_[1], "S": a[1] - b_[1], "M": a[1] * b_[1]}[e[1][0]]
+            return ("const", v, a[2])
+        return e0
+    return e0
 
 
 def accept_set(body, width_max=70000):
@@ -362,7 +435,7 @@ def accept_set(body, width_max=70000):
                 if not n_:
                     unknown = True
                     continue
-                op, l, r_ = n_[0], strip(n_[1]), strip(n_[2])
+                op, l, r_ = n_[0], const_fold(strip(n_[1])), const_fold(strip(n_[2]))
                 if r_[0] == "const" and l[0] != "const":
                     v = r_[1]
                     if op == "Lt":
@@ -440,7 +513,7 @@ def size_rules(F, R, nm, d, m, cs):
     ok = len(rets) == 1 and re.match(r"^utils::ceil_mul\(Add\(%%\w+, %d\), %d\)$" % (do, a), rets[0]) is not None
     R.ob("F2.enum-size", fn, "formula", ok, "%s: size() = ceil_mul(DATA_OFFSET(%s) + payload size, ALIGN(%s))%s" % (nm, do, a, "" if ok else " -- found %s" % rets),
          where=b["span"])
-    sw = tag_switches(body, is_self_tag)
+    sw = tag_switches(body, is_self_tag, declared_discrs(d))
     if len(sw) != 1:
         R.anchor_lost("F6.size-list", fn, "expected one match on self.tag, found %d" % len(sw))
         return
@@ -489,7 +562,7 @@ def access_rules(F, R, nm, d, m, cs):
         b = rs[0]
         body = Body(b)
         fn = nm + "::" + meth
-        sw = tag_switches(body, is_self_tag)
+        sw = tag_switches(body, is_self_tag, declared_discrs(d))
         if len(sw) != 1:
             R.anchor_lost("F6.access-list", fn, "expected one match on self.tag")
             continue
